@@ -106,7 +106,9 @@ pub fn family_cfg(family: &str, rng: &mut Rng) -> GenCfg {
             c.depth = 2;
             c.p_ctx = 60;
             c.p_eoi_ctx = 15;
-            c.w_atom = [10, 4, 5, 1, 1, 0];
+            c.w_atom = [10, 4, 5, 1, 2, 0];
+            // exact tables only; `whitespace` has 10 ranges and forces the search-table path
+            c.builtins = vec!["ascii_lowercase", "ascii_digit", "whitespace", "whitespace", "ascii_punctuation"];
         }
         "eoi" => {
             c.letters = vec!['a', 'b'];
